@@ -35,7 +35,7 @@ func (x Expr) Append(buf []byte, brackets ...bool) []byte {
 		}
 		start := len(buf)
 		buf = frag.Append(buf, bracket, i == 0)
-		if afterDescent && !bracket && start < len(buf) && buf[start] == '[' {
+		if afterDescent && start < len(buf) && buf[start] == '[' {
 			// A descent is written as a single . and relies on the next
 			// fragment to add the second one. A fragment in bracket form
 			// does not so add it here, $..[0] and not $.[0].
@@ -43,14 +43,14 @@ func (x Expr) Append(buf []byte, brackets ...bool) []byte {
 			copy(buf[start+1:], buf[start:])
 			buf[start] = '.'
 		}
+		// Only a descent written in dot form needs its second dot.
 		_, afterDescent = frag.(Descent)
+		afterDescent = afterDescent && !bracket
 	}
-	if 0 < len(x) && !bracket {
+	if afterDescent {
 		// A trailing descent in dot form is written as .. while the bracket
 		// form, [..], is already complete.
-		if _, ok := x[len(x)-1].(Descent); ok {
-			buf = append(buf, '.')
-		}
+		buf = append(buf, '.')
 	}
 	return buf
 }
